@@ -105,6 +105,7 @@ class HbHarness:
             self._wrap_conn(name, c)
         self.mark = {name: 0 for name in self.conns}
         self.round_returns = {name: 0 for name in self.conns}
+        self.owed = {}
         self.gl = None
         self.main = greenlet.getcurrent()
         self.round_error = None
@@ -155,8 +156,16 @@ class HbHarness:
         for name, r in init.items():
             c = self.conns[name]
             if r["alive"] == "ok":
-                for _ in range(r["inflight"]):
-                    self._request(c)
+                rids = [self._request(c) for _ in range(r["inflight"])]
+                for rid in r.get("orph", ()):
+                    # the request timed out on the client: what ResponseFuture._on_timeout does to the connection
+                    if rid not in rids:
+                        raise RuntimeError("cannot orphan stream %s: outstanding %s" % (rid, rids))
+                    c._requests.pop(rid)
+                    with c.lock:
+                        c.orphaned_request_ids.add(rid)
+                    self.owed[(name, rid)] = next((node, p) for node in self.nodes for p in node.pending
+                                                  if p.conn is c and p.frame.stream == rid)
                 c.msg_received = not r["idle"]
                 if not r.get("writable", True):
                     c._socket_writable = False      # what the libev reactor does while its write buffer is backed up
@@ -285,11 +294,22 @@ class HbHarness:
     def act_Traffic(self, a, post):
         c = self.conns[a["c"]]
         n = len(self.log)
-        rid = self._request(c)
-        for node in self.nodes:
-            for p in list(node.pending):
-                if p.conn is c and p.frame.stream == rid and p.req.get("op") == "QUERY":
-                    node.respond_void(p)
+        kind = a.get("kind") or "reqresp"
+        if kind == "reqresp":
+            rid = self._request(c)
+            for node in self.nodes:
+                for p in list(node.pending):
+                    if p.conn is c and p.frame.stream == rid and p.req.get("op") == "QUERY":
+                        node.respond_void(p)
+        elif kind == "late":                 # the server's late answer to the orphaned stream, as real bytes
+            key = next((k for k in self.owed if k[0] == a["c"]), None)
+            if key is None:
+                return [("no orphaned request on", a["c"])], []
+            node, p = self.owed.pop(key)
+            node.send(p.conn, p.frame.version, p.frame.stream, wire.RESULT, wire.body_void())
+        else:                                # a pushed event
+            node = next(nd for nd in self.nodes if nd.address == c.endpoint.address)
+            node.push_event(c, wire.body_event_schema(4, "CREATED", "KEYSPACE", "ks_heartbeat_traffic"))
         return self.log[n:], []
 
     def act_Die(self, a, post):
@@ -314,7 +334,8 @@ class HbHarness:
                  "sent": self._options_seen(name) - self.mark[name], "returned": self.round_returns[name]}
             if alive == "ok":
                 r.update(idle=not c.msg_received, inflight=c.in_flight, free=list(c.request_ids),
-                         highest=c.highest_request_id, writable=bool(c._socket_writable))
+                         highest=c.highest_request_id, writable=bool(c._socket_writable),
+                         orph=sorted(c.orphaned_request_ids))
             out[name] = r
         return out
 
@@ -325,7 +346,7 @@ def spec_view(st):
         v = {"alive": str(r["alive"]), "held": r["held"], "sent": st["sentCnt"][name], "returned": st["retCnt"][name]}
         if r["alive"] == "ok":
             v.update(idle=r["idle"], inflight=r["inflight"], free=list(r["free"]), highest=r["highest"],
-                     writable=r["writable"])
+                     writable=r["writable"], orph=sorted(r["orph"]))
         out[str(name)] = v
     return out
 
